@@ -437,6 +437,15 @@ struct Engine : public vf::Engine {
             }
             if (o.kind != H_NONE) H.ops.push_back(o);
         }
+        if (dia && w.chance(1, 6)) {      // as a run of tests does: k tests that leak nothing, each asking for its report on a cleared buffer, then one that leaks enough to overflow the report
+            Vec<Op> pre; int k = (int)w.range(0, 34), m = (int)w.range(20, 70);
+            for (int i = 0; i < k; i++) { Op a(H_START); pre.push_back(a); Op b(H_REPORT); b.a = 3; pre.push_back(b); }
+            { Op a(H_START); pre.push_back(a); }
+            for (int i = 0; i < m && i < N_SLOTS; i++) { Op o(H_ALLOC); o.a = i; o.b = (int64_t)w.below(3); o.c = w.small(1, 64); o.phase = (int)w.below(3); o.s = longFile; pre.push_back(o); }
+            { Op b(H_REPORT); b.a = 3; pre.push_back(b); }
+            H.ops.insert(H.ops.begin(), pre.begin(), pre.end());
+            d.p["clean_reports_then_overflow"] = k;
+        }
         d.groups.push_back(H);
     }
 
